@@ -101,6 +101,7 @@ func (c *consumer) run(want int, marker any) {
 		for _, old := range c.got {
 			vrt.Assert(old.msg != m, "each delivery is a separate copy")
 		}
+		vrt.Assert(m.Metadata.Get("k2") == "", "a delivery carries the metadata the message had when it was published")
 		m.Metadata.Set("k", "mutated-by-"+c.name) // must never leak
 		if seen[m.UUID] < c.nacks {
 			seen[m.UUID]++
